@@ -339,7 +339,7 @@ func (c *Collection) WriteCas(key string, exp Exp, cas CAS, val any, opt sgbucke
 			// Append:
 			sql = `UPDATE documents SET value=value || ?1, cas=?2, exp=?6, isJSON=?7,revSeqNo=?8,
 						xattrs=iif(tombstone != 0, null, xattrs), tombstone=?9
-				   WHERE collection=?3 AND key=?4 AND cas=?5`
+				   WHERE collection=?3 AND key=?4 AND cas=?5 AND value NOT NULL`
 		} else if (opt&sgbucket.AddOnly) != 0 || cas == 0 {
 			// Insert, but fall back to Update if the doc is a tombstone
 			sql = `INSERT INTO documents (collection, key, value, cas, exp, isJSON,revSeqNo,tombstone) VALUES(?3,?4,?1,?2,?6,?7,?8,?9)
